@@ -54,6 +54,10 @@ pub struct Cfg {
     /// only blocks with the mutation "commit_bad_tx" commit them
     #[serde(default)]
     pub bad_twins: bool,
+    /// genesis carries dep-group cells (C04 probes): one listing the always_success code cell, one
+    /// listing that cell and an ordinary spendable genesis cell, one listing only the witness-lock code cell
+    #[serde(default)]
+    pub dep_groups: bool,
 }
 
 impl Cfg {
@@ -79,6 +83,7 @@ impl Cfg {
             wlock_cells: 0,
             pow: 0,
             bad_twins: false,
+            dep_groups: false,
         }
     }
 }
@@ -294,6 +299,8 @@ pub struct World {
     pub max_ts: u64,
     /// the scenario delivers a prefix with scripts disabled (such blocks record 0 cycles)
     pub assume_valid: bool,
+    /// dep-group cells of the genesis block (see Cfg::dep_groups): [code only, code + spendable cell, wcode only]
+    pub dep_group_cells: Vec<OutPoint>,
 }
 
 /// What to put into a new block.
@@ -457,6 +464,33 @@ impl World {
                     .build(),
             );
         }
+        let mut dep_group_cells: Vec<OutPoint> = Vec::new();
+        if cfg.dep_groups {
+            let code_op = OutPoint::new(tx0.hash(), 0);
+            let wcode_op = OutPoint::new(tx0.hash(), 3);
+            // the first ordinary genesis cell: sooner or later some transaction spends it
+            let member = OutPoint::new(gtxs[1 + cfg.wlock_cells].hash(), 0);
+            let group = |ops: &[OutPoint]| -> Bytes {
+                let v: packed::OutPointVec = ops.to_vec().pack();
+                v.as_bytes()
+            };
+            let datas = [group(&[code_op.clone()]), group(&[code_op.clone(), member]), group(&[wcode_op])];
+            let lock = Script::new_builder().code_hash(code_hash.clone()).hash_type(ScriptHashType::Data).args(Bytes::from(vec![0xd6])).build();
+            let mut tb = TransactionBuilder::default()
+                .input(CellInput::new(OutPoint::null(), 900_000))
+                .output(CellOutput::new_builder().capacity(Capacity::shannons(5_000 * SHANNONS)).lock(lock.clone()).build())
+                .output_data(Bytes::new());
+            for d in datas.iter() {
+                tb = tb
+                    .output(CellOutput::new_builder().capacity(Capacity::shannons((d.len() as u64 + 8 + 34 + 100) * SHANNONS)).lock(lock.clone()).build())
+                    .output_data(d.clone());
+            }
+            let dg = tb.build();
+            for i in 1..=3u32 {
+                dep_group_cells.push(OutPoint::new(dg.hash(), i));
+            }
+            gtxs.push(dg);
+        }
         let dao = ckb_dao_utils::genesis_dao_data_with_satoshi_gift(
             gtxs.iter().collect(),
             &ckb_types::H160([0u8; 20]),
@@ -599,6 +633,7 @@ impl World {
             planted: BTreeMap::new(),
             max_ts: 0,
             assume_valid: false,
+            dep_group_cells,
         }
     }
 
@@ -1297,7 +1332,13 @@ impl World {
                         let want_bad = parts[0] == "commit_immature";
                         let deps_ok = t.tx.cell_deps().into_iter().all(|d| cells.contains_key(&d.out_point()))
                             && t.tx.header_deps().into_iter().all(|h| self.by_hash.get(&h).map(|i| pst.chain.get(self.blocks[*i].number as usize) == Some(i)).unwrap_or(false));
-                        if in_win && live && deps_ok && locked == want_bad {
+                        let cost = self.tx_cycles(&t.tx, &cells);
+                        let fits = match cost {
+                            Some(c) => cyc_sum + c <= self.cfg.max_block_cycles,
+                            None => self.cfg.max_block_cycles >= 1_000_000,
+                        };
+                        if in_win && live && deps_ok && locked == want_bad && fits {
+                            cyc_sum += cost.unwrap_or(0);
                             for i in t.tx.inputs().into_iter() {
                                 cells.remove(&i.previous_output());
                             }
